@@ -67,6 +67,17 @@ CHECKS = {
              "handling are outside. Two known findings are listed in known_findings.jsonl.",
         ref="DESIGN.md 4 C16",
     ),
+    "C15": dict(
+        text="Bounded model checking of alias resolution on the real Aliases.get/eval_alias and SubprocSpec.build code over symbolic alias "
+             "graphs: every assignment of kinds (list, list with leading decorators, callable, return_command) and head names over a0..a3 "
+             "plus a non-alias, so self loops, 2-/3-cycles, chains and diamonds all occur; the invoked name, own and user arguments vary. "
+             "The result must equal an independently written iterative expander (each alias at most once, inner alias arguments before "
+             "outer before user arguments, decorators in encounter order, last decorator wins), be identical for both definition orders, "
+             "and never hit RecursionError; $__ALIAS_STACK blocks re-expansion.",
+        note="Finite-domain claim over the stated graph family (2-3 aliases quick, 3-4 thorough); argument tokens are opaque markers. "
+             "String aliases / ExecAlias classification (regex, lexer) are outside; expand_path is the identity and no PATH search is done.",
+        ref="DESIGN.md 4 C15",
+    ),
 }
 
 NA = {
